@@ -286,7 +286,8 @@ class BaseLoader(ABC):
 def openPackageResource(package, path):
     try:
         __import__(package)
-    except ImportError as e:
+    except (ImportError, ValueError) as e:
+        # ValueError: an empty package name ("package::file")
         raise ZConfig.SchemaResourceError(
             f"could not load package {package}: {str(e)}",
             filename=path,
